@@ -27,7 +27,7 @@ class Step:
                  "dir0", "t0", "vol0", "bnd0", "lim", "limact", "mfp0", "xs", "rng", "flags",
                  "along", "ea", "depa", "ta", "stepa", "acta", "mfpa", "bnda", "act3", "e1",
                  "pos1", "dir1", "t1", "vol1", "bnd1", "step", "dep", "act", "mfp1", "secs",
-                 "hx", "G", "L", "X", "K")
+                 "hx", "G", "L", "X", "K", "M")
 
     def key(self):
         return (self.ev, self.trk)
@@ -74,7 +74,7 @@ def parse_S(line):
             "e1": qh[0], "t1": qh[7], "step": qh[10], "dep": qh[11], "mfp1": qh[13],
             "pos0": wh[1:4], "pos1": qh[1:4], "dir0": wh[4:7], "dir1": qh[4:7],
             "secs": [zh[2 + 2 * i] for i in range(n)]}
-    s.G = s.L = s.X = s.K = None
+    s.G = s.L = s.X = s.K = s.M = None
     return s
 
 
@@ -83,6 +83,7 @@ class Log:
         self.config = ""
         self.actions, self.q, self.particles, self.scalars, self.cuts = {}, {}, {}, {}, {}
         self.volumes = {}
+        self.registry = {}
         self.steps, self.iters, self.totals = [], [], {}
         self.verdict = None
         self.errors = []
@@ -113,6 +114,26 @@ def parse(lines):
             log.steps.append(s)
             cur[(s.it, s.slot)] = s
             log.by_track.setdefault((s.ev, s.trk), []).append(s)
+        elif t == "M":
+            w = line.split()
+            s = cur.get((int(w[1]), int(w[2])))
+            if s is None:
+                log.errors.append("orphan " + line[:40])
+                continue
+            g = [x.split() for x in line.split("|")]
+            f = lambda h: fl(h)
+            s.M = {"alg": int(g[1][0]), "appl": int(g[1][1]),
+                   "phys": f(g[2][0]), "onb": int(g[2][1]), "safety": f(g[2][2]),
+                   "maxstep": f(g[2][3]), "mfp": f(g[2][4]), "range": f(g[2][5]),
+                   "r0": (int(g[3][0]), f(g[3][1]), f(g[3][2]), f(g[3][3])),
+                   "r1": (int(g[4][0]), f(g[4][1]), f(g[4][2]), f(g[4][3])),
+                   "lim": int(g[5][0]), "true": f(g[5][1]), "geom": f(g[5][2]),
+                   "limited": int(g[5][3]), "z": f(g[5][4]),
+                   "applied": int(g[6][0]), "displaced": int(g[6][1]), "dlen": f(g[6][2]),
+                   "asafety": f(g[6][3]), "truefinal": f(g[6][4]),
+                   "hx": {"phys": g[2][0], "safety": g[2][2], "maxstep": g[2][3], "mfp": g[2][4],
+                          "range": g[2][5], "r0": g[3][1:4], "r1": g[4][1:4], "true": g[5][1],
+                          "geom": g[5][2], "z": g[5][4], "truefinal": g[6][4]}}
         elif t in "GLXK":
             w = line.split()
             s = cur.get((int(w[1]), int(w[2])))
@@ -128,7 +149,12 @@ def parse(lines):
                        "hx": w[4:12]}
             elif t == "X":
                 n = int(w[7])
-                s.X = {"kind": w[4], "e": fl(w[5]), "dep": fl(w[6]),
+                calls, first = 1, w[4]
+                if "calls" in w:
+                    k = w.index("calls")
+                    calls, first = int(w[k + 1]), w[k + 3]
+                s.X = {"kind": w[4], "e": fl(w[5]), "dep": fl(w[6]), "calls": calls,
+                       "first": first,
                        "secs": [(int(w[8 + 2 * i]), fl(w[9 + 2 * i])) for i in range(n)],
                        "hx": w[5:7] + [w[9 + 2 * i] for i in range(n)]}
             else:
@@ -140,6 +166,9 @@ def parse(lines):
         elif t == "A":
             w = line.split(None, 3)
             log.actions[int(w[1])] = (w[2], w[3])
+        elif t == "B":
+            w = line.split(None, 2)
+            log.registry[int(w[1])] = w[2]
         elif t == "Q":
             w = line.split()
             log.q[w[1]] = int(w[2])
@@ -194,7 +223,7 @@ def script(problem, primaries, **kw):
     out = ["problem " + problem]
     for k in ("slots", "capacity", "maxevents", "stackfactor", "order", "seed", "maxsteps",
               "along", "interactor", "xsscale", "lossscale", "posrest", "postcut", "collector",
-              "quiet", "statuscheck", "errat"):
+              "quiet", "statuscheck", "errat", "msc", "mscalg", "mscxs"):
         if k in kw and kw[k] is not None:
             out.append("%s %s" % (k, kw[k]))
     for n, v in (kw.get("cuts") or {}).items():
